@@ -74,14 +74,55 @@ def execute_guarded(check, plan):
         faulthandler.cancel_dump_traceback_later()
 
 
+def _in_child(fn, args):
+    """Run fn(args) in a forked child of this worker and return its result.
+    Every chunk (and every minimisation) therefore starts from the state the
+    parent had right after setup: state that the code under test keeps from
+    one run to the next cannot travel between chunks, and the jobs executed
+    earlier in the same chunk are the complete history of a run."""
+    import pickle
+    r, w = os.pipe()
+    pid = os.fork()
+    if pid == 0:
+        code = 0
+        try:
+            os.close(r)
+            try:
+                data = pickle.dumps(('ok', fn(args)))
+            except BaseException:
+                data = pickle.dumps(('err', traceback.format_exc()[-4000:]))
+            with os.fdopen(w, 'wb') as f:
+                f.write(data)
+        except BaseException:
+            code = 3
+        finally:
+            os._exit(code)
+    os.close(w)
+    with os.fdopen(r, 'rb') as f:
+        data = f.read()
+    _, status = os.waitpid(pid, 0)
+    if not data:
+        raise RuntimeError('child of worker died (status %r): run wall limit exceeded or crash' % status)
+    kind, val = pickle.loads(data)
+    if kind == 'err':
+        raise RuntimeError('exception in child of worker:\n' + val)
+    return val
+
+
 def _worker_chunk(args):
+    return _in_child(_chunk_body, args)
+
+
+def _chunk_body(args):
     pid, tier, base_seed, jobs, gate_jobs = args
     check = load_check(pid)
     out = {'evaluations': 0, 'sigs': set(), 'fired': {}, 'probes': {}, 'sim_time': 0.0, 'steps': 0,
            'samples': [], 'violations': [], 'digests': {}, 'harness_errors': [], 'inter': set(),
            'nontrivial': 0, 'extra': {}}
     gate = set(gate_jobs)
+    done = []
     for job in jobs:
+        done.append(job)
         try:
             plan = _plan_for(check, job, tier, base_seed)
             res = execute_guarded(check, plan)
@@ -115,13 +156,17 @@ def _worker_chunk(args):
             v0 = res.violations[0]
             if v0.key not in keys:
                 out['violations'].append({'job': job, 'plan': plan, 'violation': v0.to_json(),
-                                          'digest': res.digest})
+                                          'digest': res.digest, 'prelude': list(done[:-1])})
     out['sigs'] = sorted(out['sigs'])
     out['inter'] = sorted(out['inter'])
     return out
 
 
 def _worker_minimise(args):
+    return _in_child(_minimise_body, args)
+
+
+def _minimise_body(args):
     pid, plan, key, budget = args
     check = load_check(pid)
     return _min.minimise(check, plan, key, budget)
@@ -172,15 +217,31 @@ def write_replay(check, plan, violation, digest, meta):
     return path
 
 
-def replay_file(path, quiet=False):
+def replay_file(path, quiet=False, record=False):
     """Re-execute a replay file in *this* (fresh) interpreter.  Exit status:
-    1 reproduced (same key and digest), 2 did not reproduce."""
+    1 reproduced (same key and digest), 2 did not reproduce.  With record=True
+    the digest of this fresh execution is written into the file first (used
+    once, when the file is created: the digest of record is always one obtained
+    in a fresh interpreter, never in a long-lived worker)."""
     with open(path) as f:
         doc = json.load(f)
     check = load_check(doc['property'])
+    pre = doc.get('prelude')
+    if pre:
+        # history needed: the runs that preceded this one in its worker (regenerated from their seeds)
+        for job in pre['jobs']:
+            try:
+                execute_guarded(check, _plan_for(check, (job[0], job[1]), pre['tier'], pre['base_seed']))
+            except Exception:
+                pass
     res = execute_guarded(check, doc['plan'])
     keys = [v.key for v in res.violations]
     want = doc['violation']['key']
+    if record and want in keys[:1]:
+        doc['digest'] = res.digest
+        doc['violation'] = res.violations[0].to_json()
+        with open(path, 'w') as f:
+            json.dump(doc, f, indent=1, sort_keys=True)
     if want in keys[:1] and res.digest == doc['digest']:
         print('REPRODUCED property=%s key=%s digest=%s' % (doc['property'], want, res.digest[:16]))
         if not quiet:
@@ -188,16 +249,26 @@ def replay_file(path, quiet=False):
             print('VIOLATION property=%s replay=%s' % (doc['property'], path))
         return 1
     print('HARNESS-ERROR replay did not reproduce: want key=%s digest=%s; got keys=%r digest=%s'
-          % (want, doc['digest'][:16], keys[:3], res.digest[:16]))
+          % (want, str(doc['digest'])[:16], keys[:3], res.digest[:16]))
     return 2
 
 
-def _replay_fresh(path, hashseed):
+def _replay_fresh(path, hashseed, record=False):
     env = dict(os.environ)
     env['SIM_HASHSEED'] = str(hashseed)
-    p = subprocess.run([os.path.join(VERIF, 'bin', 'simcheck'), 'replay', path, '--quiet'],
-                       env=env, capture_output=True, text=True, timeout=300)
+    cmd = [os.path.join(VERIF, 'bin', 'simcheck'), 'replay', path, '--quiet']
+    if record:
+        cmd.append('--record')
+    p = subprocess.run(cmd, env=env, capture_output=True, text=True, timeout=300)
     return p.returncode, (p.stdout + p.stderr)[-1500:]
+
+
+def _confirm(path, hashseed):
+    """record the fresh-interpreter digest, then replay once more and demand the same."""
+    rc, outp = _replay_fresh(path, hashseed, record=True)
+    if rc == 1:
+        rc, outp = _replay_fresh(path, hashseed)
+    return rc, outp
 
 
 # ---------------------------------------------------------------------------
@@ -237,6 +308,7 @@ def run_check(pid, tier, base_seed, nproc=None, max_runs=None, write_evidence=Tr
            'samples': [], 'violations': [], 'digests': {}, 'harness_errors': [], 'inter': set(),
            'nontrivial': 0, 'extra': {}}
     harness_msgs = []
+    notes = []
     gate_mismatch = []
     gate_reruns = 0
     gset = set(gate_jobs)
@@ -304,16 +376,26 @@ def run_check(pid, tier, base_seed, nproc=None, max_runs=None, write_evidence=Tr
                 try:
                     mplan, mviol, mdigest, mstats = mf.result(timeout=budget * 4 + 120)
                 except Exception as e:
-                    harness_msgs.append('minimiser failed for %s: %r' % (key, e))
+                    notes.append('minimiser could not reproduce %s in isolation: %s' % (key, str(e)[-200:]))
                     mplan, mviol, mdigest, mstats = v['plan'], v['violation'], v['digest'], {'error': repr(e)}
                 path = write_replay(check, mplan, mviol, mdigest,
                                     {'minimised': mstats, 'tier': tier, 'job': v['job']})
-                rc, outp = _replay_fresh(path, os.environ.get('PYTHONHASHSEED', '0'))
+                rc, outp = _confirm(path, os.environ.get('PYTHONHASHSEED', '0'))
                 if rc != 1:
                     # fall back to the unminimised plan
                     path = write_replay(check, v['plan'], v['violation'], v['digest'],
                                         {'minimised': {'fallback': True}, 'tier': tier, 'job': v['job']})
-                    rc, outp = _replay_fresh(path, os.environ.get('PYTHONHASHSEED', '0'))
+                    rc, outp = _confirm(path, os.environ.get('PYTHONHASHSEED', '0'))
+                if rc != 1 and v.get('prelude'):
+                    # the violation needs state left behind by earlier runs of the same chunk
+                    path = write_replay(check, v['plan'], v['violation'], v['digest'],
+                                        {'minimised': {'fallback': 'with-prelude'}, 'tier': tier, 'job': v['job'],
+                                         'prelude': {'jobs': v['prelude'], 'tier': tier, 'base_seed': base_seed}})
+                    rc, outp = _confirm(path, os.environ.get('PYTHONHASHSEED', '0'))
+                    if rc == 1:
+                        notes.append('violation %s reproduces only after the %d runs that preceded it in its worker '
+                                     '(state carried between runs by the tree under test); replay includes them'
+                                     % (key, len(v['prelude'])))
                 if rc != 1:
                     harness_msgs.append('replay of %s does not reproduce in a fresh interpreter: %s' % (path, outp))
                     continue
@@ -328,7 +410,14 @@ def run_check(pid, tier, base_seed, nproc=None, max_runs=None, write_evidence=Tr
     for he in agg['harness_errors'][:3]:
         harness_msgs.append('exception in generator/executor job=%r:\n%s' % (he['job'], he['trace']))
     if gate_mismatch:
-        harness_msgs.append('determinism gate: %d digest mismatches, e.g. %r' % (len(gate_mismatch), gate_mismatch[:3]))
+        msg = 'determinism gate: %d digest mismatches, e.g. %r' % (len(gate_mismatch), gate_mismatch[:3])
+        if reported and not harness_msgs:
+            # violations confirmed twice in fresh interpreters: the tree under test keeps state across
+            # runs (e.g. a process-global cache), which makes runs order-dependent; that is the tree's
+            # doing, and the violations stand on their replays.
+            notes.append(msg + ' (the tree under test carries state from one run to the next)')
+        else:
+            harness_msgs.append(msg)
     missing = [p for p in check.required_probes if not agg['probes'].get(p)]
     if missing and tier == 'thorough' and not max_runs:
         harness_msgs.append('probes never hit (workload must change): %r' % missing)
@@ -346,6 +435,8 @@ def run_check(pid, tier, base_seed, nproc=None, max_runs=None, write_evidence=Tr
     print('%s: runs=%d (+%d sweep) nontrivial=%d distinct=%d wall=%.1fs faults_fired=%d (%d kinds)'
           % (check.id, n, n_extra, agg['nontrivial'], len(agg['sigs']), wall,
              sum(agg['fired'].values()), len(agg['fired'])))
+    for m in notes:
+        print('NOTE %s' % m)
     if harness_msgs:
         for m in harness_msgs:
             print('HARNESS-ERROR %s' % m)
